@@ -31,6 +31,8 @@ def jobs(tier):
             continue
         for ci, (prune, batch) in enumerate(cfgs):
             out.append({"module": "vf.props.hexmiss", "fn": "h_missing", "cfg": dict(qbase, mi=mi, prune=prune, batch=batch), "pct": 2400, "ppt": 60})
+        if mi % 4 == 2 or tier != "quick":      # after the first failure: a different write on the same object instead of a retry
+            out.append({"module": "vf.props.hexmiss", "fn": "h_missing", "cfg": dict(qbase, mi=mi, prune=True, batch=False, after_fail="other", ops=[2, 3]), "pct": 2400, "ppt": 60})
         if mi % 4 == 0 or tier != "quick":      # pruning trie freshly opened on the database (empty count table), operations inside a batch
             out.append({"module": "vf.props.hexmiss", "fn": "h_missing", "cfg": dict(qbase, mi=mi, prune=True, batch=True, fresh=True, pre=True, ops=[2, 3]), "pct": 2400, "ppt": 60})
     out.append({"module": "vf.props.hexmiss", "fn": "r_missing", "cfg": dict(qbase, mi=n - 1, prune=False, batch=False), "pct": 600, "ppt": 60, "kind": "reach"})
